@@ -139,6 +139,8 @@ def navigate(v, path):
                 if len(step) < 3:
                     raise Unsupported("untyped field access into a havoc'd object")
                 v = v.field(step[1], step[2])
+            elif isinstance(v, Ref) and step[1] == 0 and len(step) >= 3 and re.search(r"Unique<|NonNull<|\*const |\*mut ", step[2]):
+                pass      # Box<T>.0 (Unique).0 (NonNull).pointer : the pointer a Box wraps is the Ref itself
             else:
                 raise Unsupported(f"field access into {v!r}")
         elif k == "i":
@@ -367,6 +369,9 @@ class Executor:
             bs = _unescape(m.group(1)).decode("utf-8", "replace")
             return I("char", ord(bs[0]))
         text_s = self.subst(frame, text)
+        cm = re.match(r"^ZeroSized: (\{closure@[^}]*\})$", text_s)
+        if cm:
+            return Agg("struct", [], name=cm.group(1))
         # zero-sized values
         if re.match(r"^(std::marker::)?PhantomData", text_s) or text_s.startswith("ZeroSized") or ": PhantomData" in text_s:
             return Agg("struct", [], name="PhantomData")
@@ -662,7 +667,11 @@ class Executor:
             ty = self.subst(frame, ty)
             if op == "SizeOf" and ty in INT_W:
                 return I("usize", max(1, INT_W[ty] // 8))
-            raise Unsupported(f"{op}({ty})")
+            if op == "AlignOf" and ty in INT_W:
+                return I("usize", max(1, INT_W[ty] // 8))
+            # sizes of aggregate types only feed the allocator call of `Box::new` / `vec![..]` lowering
+            # (alloc::alloc::exchange_malloc, modelled as "fresh box"): an opaque token that cannot be computed with
+            return Opaque("layout:" + op)
         if k == "shallow_init_box":
             return self.operand(st, frame, rv.args[0])
         if k == "closure":
@@ -809,8 +818,13 @@ class Executor:
         while fr.idx < len(blk.stmts):
             s = blk.stmts[fr.idx]
             if s.kind == "assign":
-                val = self.rvalue(st, fr, s.rvalue)
-                self.write_loc(self.resolve(st, fr, s.place), val)
+                try:
+                    val = self.rvalue(st, fr, s.rvalue)
+                    self.write_loc(self.resolve(st, fr, s.place), val)
+                except Unsupported as e:
+                    if "   [at " not in str(e):
+                        raise Unsupported(f"{e}   [at {_short_fn(fr.name)}:{fr.block}: {s.text.strip()[:160]}]")
+                    raise
             elif s.kind == "setdisc":
                 raise Unsupported("SetDiscriminant")
             elif s.kind == "assume":
@@ -910,7 +924,7 @@ class Executor:
         return fs[0].parse()
 
     def call_closure(self, st, fr, closure, args):
-        """call closure(args...) -> value (args is a python list of the *unpacked* call arguments)"""
+        """call closure(args...) -> value (args is a python list of the *unpacked* call arguments); fr: Frame or tymap dict"""
         if isinstance(closure, Ref):
             cval = navigate(closure.cell.v, closure.path)
             cref = closure
@@ -926,7 +940,9 @@ class Executor:
         else:
             self_arg = cval
         # closure bodies take their arguments unpacked
-        return self.call_sync(st, fn, [self_arg] + list(args), dict(fr.tymap))
+        if isinstance(cval, FnItem):
+            raise Unsupported("function item used as closure")
+        return self.call_sync(st, fn, [self_arg] + list(args), dict(fr if isinstance(fr, dict) else fr.tymap))
 
     def call_sync(self, st, fn, args, tymap):
         """run fn to completion on this state and return its value.  A fork inside propagates as an exception after the
